@@ -108,6 +108,18 @@ def _broadcast(fx, np, pid, tx, ty):
                     X2 = x_arith.mk(fx, np, tx, xs[:4], shape=(2, 2))
                     Y2 = x_arith.mk(fx, np, ty, [ly, hy])
                     Zs.append(('2d-1d', x_arith.apply(fx, np, op, X2, Y2, 'operator'), xs[:4], [ly, hy, ly, hy]))
+                # shapes in which the FIRST operand is the one that broadcasting expands (fewer dimensions, size-1 axes on either side)
+                ys = [ly, hy, b, (ly + hy) // 2]
+                for name, shx, shy in (('1d-2d', (2,), (2, 2)), ('col-row', (2, 1), (1, 2)), ('one-many', (1,), (4,)), ('3d', (2, 1, 2), (2, 1)),
+                                       ('row-col', (1, 2), (2, 1))):
+                    nx = int(np.prod(shx)); ny = int(np.prod(shy))
+                    cxa = np.array((xs * 4)[:nx], dtype=object).reshape(shx)
+                    cya = np.array((ys * 4)[:ny], dtype=object).reshape(shy)
+                    Xb = x_arith.mk(fx, np, tx, (xs * 4)[:nx], shape=shx)
+                    Yb = x_arith.mk(fx, np, ty, (ys * 4)[:ny], shape=shy)
+                    bx, by = np.broadcast_arrays(cxa, cya)
+                    Zs.append((name, x_arith.apply(fx, np, op, Xb, Yb, ['operator', 'function', 'numpy'][(nx + ny + len(op)) % 3]),
+                               [int(c) for c in bx.ravel().tolist()], [int(c) for c in by.ravel().tolist()]))
                 for name, Z, cx, cy in Zs:
                     if name == 'scalar-array':
                         row = dict(base, x=base['y'], y=base['x'], cx=[common.wint(b)] * len(xs), cy=[common.wint(c) for c in xs])
